@@ -21,6 +21,7 @@
 //     wpd / wid separate derivative calls, wdp / wdi combined call   (only what the model advertises)
 //     wpd2 / wid2 / eg the same calls writing into buffers of the right size that hold old values (777)
 //     s0 weighted output sum, fp / fi: S(theta + h e_i), S(theta - h e_i), S(theta + 2h e_i), S(theta - 2h e_i) for every parameter / input entry (h = 2^-17)
+//     kp / ki: two kink indicators per probe, taken over all output entries (see Probe)
 //     ft features (1 parameter derivative, 4 input derivative)   dim B,nin,nout
 #include <cstdio>
 #include <cmath>
@@ -150,9 +151,6 @@ static M* parseModel(Tok& t, Pool& pool) {
 static double wsum(RealMatrix const& out, RealMatrix const& C) {
 	double s = 0; for (std::size_t i = 0; i < out.size1(); ++i) for (std::size_t j = 0; j < out.size2(); ++j) s += C(i, j) * out(i, j); return s;
 }
-static double S(M& m, RealMatrix const& X, RealMatrix const& C) {
-	RealMatrix out; boost::shared_ptr<State> st = m.createState(); m.eval(X, out, *st); return wsum(out, C);
-}
 
 static void probe(M& m, RealVector const& params, RealMatrix const& X, RealMatrix const& C, std::ostream& o) {
 	std::size_t B = X.size1(), nin = X.size2();
@@ -198,26 +196,40 @@ static void probe(M& m, RealVector const& params, RealMatrix const& X, RealMatri
 	if (hi) { RealMatrix d(B, nin, 777.0); m.weightedInputDerivative(X, es, C, *st, d); put(o, "wid2", d); }
 	{ RealMatrix out(B, nout, 777.0); boost::shared_ptr<State> s2 = m.createState(); m.eval(X, out, *s2); put(o, "eg", out); }
 	o << " s0=" << hx(wsum(es, C));
+	// finite-difference probes: weighted sums at +h, -h, +2h, -2h and two kink indicators taken over ALL output entries
+	// (k1 = max |second difference(h) - second difference(2h)/4|, k2 = max |central quotient(h) - central quotient(2h)|)
+	struct Probe {
+		static void run(M& m, RealMatrix const& X, RealMatrix const& C, RealMatrix const& out0, RealMatrix outs[4], std::vector<double>& f, std::vector<double>& k) {
+			for (int q = 0; q < 4; ++q) f.push_back(wsum(outs[q], C));
+			double k1 = 0, k2 = 0;
+			for (std::size_t i = 0; i < out0.size1(); ++i) for (std::size_t j = 0; j < out0.size2(); ++j) {
+				double d1 = outs[0](i, j) - 2 * out0(i, j) + outs[1](i, j), d2 = outs[2](i, j) - 2 * out0(i, j) + outs[3](i, j);
+				double c1 = (outs[0](i, j) - outs[1](i, j)) / (2 * H), c2 = (outs[2](i, j) - outs[3](i, j)) / (4 * H);
+				k1 = std::max(k1, std::fabs(d1 - d2 / 4)); k2 = std::max(k2, std::fabs(c1 - c2));
+				if (d1 != d1 || c1 != c1) { k1 = 1e300; }
+			}
+			k.push_back(k1); k.push_back(k2);
+		}
+	};
+	static const double steps[4] = {H, -H, 2 * H, -2 * H};
 	if (hp) {
-		std::vector<double> fp;
+		std::vector<double> fp, kp;
 		for (std::size_t i = 0; i < params.size(); ++i) {
-			RealVector p = params; p(i) += H; m.setParameterVector(p); fp.push_back(S(m, X, C));
-			p(i) = params(i) - H; m.setParameterVector(p); fp.push_back(S(m, X, C));
-			p(i) = params(i) + 2 * H; m.setParameterVector(p); fp.push_back(S(m, X, C));
-			p(i) = params(i) - 2 * H; m.setParameterVector(p); fp.push_back(S(m, X, C));
+			RealMatrix outs[4];
+			for (int q = 0; q < 4; ++q) { RealVector p = params; p(i) += steps[q]; m.setParameterVector(p); boost::shared_ptr<State> s2 = m.createState(); m.eval(X, outs[q], *s2); }
+			Probe::run(m, X, C, es, outs, fp, kp);
 		}
 		m.setParameterVector(params);
-		put(o, "fp", fp);
+		put(o, "fp", fp); put(o, "kp", kp);
 	}
 	if (hi) {
-		std::vector<double> fi;
+		std::vector<double> fi, ki;
 		for (std::size_t r = 0; r < B; ++r) for (std::size_t j = 0; j < nin; ++j) {
-			RealMatrix Xp = X; Xp(r, j) += H; fi.push_back(S(m, Xp, C));
-			Xp(r, j) = X(r, j) - H; fi.push_back(S(m, Xp, C));
-			Xp(r, j) = X(r, j) + 2 * H; fi.push_back(S(m, Xp, C));
-			Xp(r, j) = X(r, j) - 2 * H; fi.push_back(S(m, Xp, C));
+			RealMatrix outs[4];
+			for (int q = 0; q < 4; ++q) { RealMatrix Xp = X; Xp(r, j) += steps[q]; boost::shared_ptr<State> s2 = m.createState(); m.eval(Xp, outs[q], *s2); }
+			Probe::run(m, X, C, es, outs, fi, ki);
 		}
-		put(o, "fi", fi);
+		put(o, "fi", fi); put(o, "ki", ki);
 	}
 }
 
